@@ -190,6 +190,7 @@ func c04(c *Ctx) {
 	c04RemoveDuringDispatch(c)
 	c04TwoNamesBackground(c)
 	c04BackgroundRemovers(c)
+	c04LoneScribbler(c)
 }
 
 func orDash(s string) string {
@@ -689,6 +690,48 @@ func c04BackgroundRemovers(c *Ctx) {
 		}
 		if !ok || len(diffs) > 0 {
 			c.SpecFail("spec", desc, "", strings.Join(diffs, " | "), map[string]interface{}{"op": "background-removers"})
+		}
+	}
+}
+
+// c04LoneScribbler: which handlers an event invokes is decided by the event that ARRIVED. A lone foreground handler
+// that rewrites the verb of the line it was given (its own copy) changes nothing about who else is invoked: the
+// background handlers registered under the real name run once, those under the name it wrote never.
+func c04LoneScribbler(c *Ctx) {
+	for round := 0; round < c.Pick(2, 6); round++ {
+		events := 100
+		desc := fmt.Sprintf("one foreground handler for NOTICE that rewrites line.Cmd to PRIVMSG, background handlers under NOTICE and under PRIVMSG, %d NOTICE lines", events)
+		c.Journal("C04 " + desc)
+		sess, err := newSession(nil, nil)
+		if err != nil {
+			c.Res.Inconclusive++
+			continue
+		}
+		var real, wrong, fg int64
+		sess.conn.HandleFunc("NOTICE", func(_ *client.Conn, l *client.Line) {
+			atomic.AddInt64(&fg, 1)
+			l.Cmd = "PRIVMSG"
+		})
+		sess.conn.HandleBG("NOTICE", client.HandlerFunc(func(*client.Conn, *client.Line) { atomic.AddInt64(&real, 1) }))
+		sess.conn.HandleBG("PRIVMSG", client.HandlerFunc(func(*client.Conn, *client.Line) { atomic.AddInt64(&wrong, 1) }))
+		var sb strings.Builder
+		for k := 0; k < events; k++ {
+			sb.WriteString(fmt.Sprintf(":n!u@h NOTICE me :%d\r\n", k))
+		}
+		sess.srv.Send(sb.String())
+		synced := sess.sync(20 * time.Second)
+		waitFor(func() bool { return atomic.LoadInt64(&real) >= int64(events) }, 2*time.Second)
+		sess.close()
+		c.Res.Traces++
+		c.Res.Evaluations += events
+		c.Dist("lone-scribbler")
+		if !synced {
+			c.Res.Inconclusive++
+			continue
+		}
+		if f, r, w := atomic.LoadInt64(&fg), atomic.LoadInt64(&real), atomic.LoadInt64(&wrong); f != int64(events) || r != int64(events) || w != 0 {
+			c.SpecFail("spec", desc, "", fmt.Sprintf("the foreground handler ran %d times, the background handler for NOTICE %d times (Spec: %d each), the background handler for PRIVMSG %d times (Spec: 0)", f, r, events, w),
+				map[string]interface{}{"op": "lone-scribbler", "events": events})
 		}
 	}
 }
